@@ -8,6 +8,10 @@ import manifest_data as md
 props = [json.loads(l) for l in open(os.path.join(HERE, "..", "properties.jsonl"))]
 ids = [p["id"] for p in props]
 checks = []
+import glob
+for f in sorted(glob.glob(os.path.join(HERE, "claims", "C*.json"))):
+    e = json.load(open(f))
+    md.CLAIMED[os.path.basename(f)[:-5]] = e
 for pid in ids:
     if pid not in md.CLAIMED:
         continue
